@@ -175,28 +175,18 @@ func (w *Writer) WriteRecord(recordSamples int32, recordPreSamples int32, framec
 	if len(data) != w.NumberOfBases {
 		return fmt.Errorf("wrong number of bases, have %v, want %v", len(data), w.NumberOfBases)
 	}
-	if _, err := w.writer.Write(getbytes.FromInt32(int32(recordSamples))); err != nil {
-		return err
-	}
-	if _, err := w.writer.Write(getbytes.FromInt32(int32(recordPreSamples))); err != nil {
-		return err
-	}
-	if _, err := w.writer.Write(getbytes.FromInt64(framecount)); err != nil {
-		return err
-	}
-	if _, err := w.writer.Write(getbytes.FromInt64(timestamp)); err != nil {
-		return err
-	}
-	if _, err := w.writer.Write(getbytes.FromFloat32(pretriggerMean)); err != nil {
-		return err
-	}
-	if _, err := w.writer.Write(getbytes.FromFloat32(pretriggerDelta)); err != nil {
-		return err
-	}
-	if _, err := w.writer.Write(getbytes.FromFloat32(residualStdDev)); err != nil {
-		return err
-	}
-	if _, err := w.writer.Write(getbytes.FromSliceFloat32(data)); err != nil {
+	// Assemble the whole record and queue it with a single (non-blocking) Write, so that a full
+	// write queue rejects the record as a whole instead of accepting only its first parts.
+	record := make([]byte, 0, 36+4*len(data))
+	record = append(record, getbytes.FromInt32(int32(recordSamples))...)
+	record = append(record, getbytes.FromInt32(int32(recordPreSamples))...)
+	record = append(record, getbytes.FromInt64(framecount)...)
+	record = append(record, getbytes.FromInt64(timestamp)...)
+	record = append(record, getbytes.FromFloat32(pretriggerMean)...)
+	record = append(record, getbytes.FromFloat32(pretriggerDelta)...)
+	record = append(record, getbytes.FromFloat32(residualStdDev)...)
+	record = append(record, getbytes.FromSliceFloat32(data)...)
+	if _, err := w.writer.Write(record); err != nil {
 		return err
 	}
 	w.recordsWritten++
